@@ -46,6 +46,7 @@ def alphabet(room):
         M.PrivateRoomOperatorGranted.Response(room), M.PrivateRoomOperatorRevoked.Response(room),
         M.PrivateRoomGrantOperator.Response(room, 'bob'), M.PrivateRoomRevokeOperator.Response(room, 'bob'),
         M.RoomTickerAdded.Response(room, 'bob', 'hi'), M.RoomTickerRemoved.Response(room, 'bob'),
+        M.RoomTickerAdded.Response(room, 'bob', 'a newer ticker'),
     ]
 
 
